@@ -17,7 +17,7 @@ FUNCS = ['verify_total_difficulty', 'verify_tau', 'EpochDifficultyTrend::{new,ch
 H = 'slsp_real.rs'
 
 
-def k(ob, harness, desc, bounds, timeout=1500, mem=14, covers=0, tiers=('quick', 'thorough'), weight=3):
+def k(ob, harness, desc, bounds, timeout=1500, mem=8, covers=0, tiers=('quick', 'thorough'), weight=3):
     return KRealOb(ob, SLSP, H, harness, desc, bounds, cuts=CUTS, timeout=timeout, mem_gb=mem, tiers=tiers,
                    min_covers=covers, functions=FUNCS, weight=weight)
 
@@ -27,6 +27,9 @@ def panic_obligations(prefix):
         k(prefix + '-vtd-no-panic', 'vtd_no_panic', 'verify_total_difficulty never aborts: arbitrary (also ill-formed) epochs, compact targets '
           'and 256-bit totals', 'all 24/16/16-bit epoch fields (also ill-formed / reversed), all u32 compact targets, all 256-bit totals, block difficulties < 2^128 (what proof-of-work can reach); <=3 epoch switches',
           weight=8),
+        k(prefix + '-no-panic-wide', 'vtd_no_panic_wide', 'verify_total_difficulty and verify_tau never abort, with ARBITRARY 256-bit block difficulties',
+          'all epoch fields, compact targets, 256-bit totals and 256-bit block difficulties; <=3 epoch switches', weight=8, timeout=3000, mem=20,
+          tiers=('thorough',)),
         k(prefix + '-vtau-no-panic', 'vtau_no_panic', 'verify_tau never aborts for arbitrary inputs', 'as above', weight=2),
     ]
 
@@ -37,11 +40,14 @@ def obligations():
           'n <= 3', covers=3),
         k('O14.2-split', 'split_kernels', 'split_epochs groups add up to n and remove_last_epoch drops exactly one, for every n>=2, k<n',
           'all n < 2^24 (difference of 24-bit epoch numbers), k<n', covers=1, weight=1),
-        k('O14.2-sound', 'vtd_sound', 'verify_total_difficulty Ok implies: not decreasing; same epoch => total = d*(delta index); one switch => '
+        k('O14.2-sound', 'vtd_sound_q', 'verify_total_difficulty Ok implies: not decreasing; same epoch => total = d*(delta index); one switch => '
+          'exact unaligned sum; two switches => total - unaligned within [E/2, 2E]', 'well-formed ordered epochs, <=2 switches, '
+          'block difficulties < 2^64, totals 256-bit', covers=3, weight=9, timeout=1500, mem=10, tiers=('quick',)),
+        k('O14.2-sound-t', 'vtd_sound', 'verify_total_difficulty Ok implies: not decreasing; same epoch => total = d*(delta index); one switch => '
           'exact unaligned sum; more => total - unaligned within [sum E/2^i, sum E*2^i]', 'well-formed ordered epochs, <=3 switches, '
-          'block difficulties < 2^64, totals 256-bit', covers=3, weight=9, timeout=2400, mem=20),
+          'block difficulties < 2^64, totals 256-bit', covers=3, weight=9, timeout=3000, mem=20, tiers=('thorough',)),
         k('O14.1-complete-n2', 'complete_n2', 'every legal history with two epoch switches is accepted by verify_tau and verify_total_difficulty',
-          'block difficulties < 2^56, epoch lengths < 16, arbitrary positions', covers=1, weight=9, timeout=2400, mem=20),
+          'block difficulties < 2^56, epoch lengths < 16, arbitrary positions', covers=1, weight=9, timeout=2400, mem=10),
         k('O14.1-complete-n01', 'complete_n01', 'every legal history inside one epoch or across exactly one switch is accepted',
-          'block difficulties < 2^56, epoch lengths < 16', covers=1, weight=6, timeout=2400, mem=20),
+          'block difficulties < 2^56, epoch lengths < 16', covers=1, weight=6, timeout=3000, mem=20, tiers=('thorough',)),
     ]
